@@ -211,6 +211,18 @@ def role_consistent(shapes):
     return True
 
 
+def position_consistent(shapes):
+    """Weaker than role_consistent: a shared name is positional at the same index everywhere (positional-only or
+    positional-or-keyword alike), or keyword-only everywhere, or the same star everywhere."""
+    seen = {}
+    for sh in shapes:
+        for name, (kind, idx) in roles(sh).items():
+            role = ('positional', idx) if kind in (PO, POK) else (kind, None)
+            if seen.setdefault(name, role) != role:
+                return False
+    return True
+
+
 def name_aligned(shapes):
     pos = [[p[0] for p in positionals(sh)] for sh in shapes]
     for a, b in itertools.combinations(pos, 2):
